@@ -134,11 +134,14 @@ def convex_problem(case):
     elif fam == "soft":
         def f(x):
             z = x - xs
-            return 0.5 * (z @ (H @ z)) + np.sum(np.log1p(np.exp(z)))
+            # overflow-safe and complex-safe softplus: z + log1p(exp(-z)) for Re z > 0
+            pos = np.real(z) > 0
+            zz = np.where(pos, -z, z)
+            return 0.5 * (z @ (H @ z)) + np.sum(np.where(pos, z, 0.0) + np.log1p(np.exp(zz)))
 
         def g(x):
             z = x - xs
-            return H @ z + 1.0 / (1.0 + np.exp(-z))
+            return H @ z + 0.5 * (1.0 + np.tanh(0.5 * z))
 
         def lip(*pts):
             return lam + 0.25
@@ -331,6 +334,7 @@ class Obs:
         self._buf = None
         self.fault = fault   # callable(kind, idx) raising, or None
         self.ncall = 0
+        self.nonfinite = 0   # objective values that were inf/nan at a *finite* point
 
     def _see(self, kind, x):
         xx = np.array(x, dtype=complex if np.iscomplexobj(x) else float, copy=True)
@@ -352,6 +356,8 @@ class Obs:
         if not np.iscomplexobj(xx):
             val = float(val)
             self.flog[xr.tobytes()] = val
+            if not np.isfinite(val) and np.all(np.isfinite(xr)):
+                self.nonfinite += 1
         if self.user == "scribble":
             try:
                 x[...] = 1e9
